@@ -351,6 +351,41 @@ def measured_probes(rng):
     ]
 
 
+def position_probes(rng):
+    """(target list, circuit) pairs for position-dependent validation: a gate the target list cannot express, placed before /
+    after / on both sides of / far behind every kind of gate that passes through the pipeline untouched (UnitaryMatrix on 3 and
+    4 qubits – the documented exception –, Measurement, a gate that IS in the list)"""
+    from oracle import dense
+    from quri_parts.circuit import QuantumCircuit, gates
+
+    def um(qs):
+        return gates.UnitaryMatrix(qs, dense.random_unitary(rng, 2 ** len(qs)).tolist())
+
+    deficient = [  # (target list, gates it cannot express)
+        (["RZ", "CNOT"], [gates.RX(0, 0.3), gates.H(1), gates.RY(2, 1.1), gates.SqrtX(0)]),
+        (["RX", "CZ"], [gates.RZ(1, 0.4), gates.T(0)]),
+        (["H", "S", "CNOT"], [gates.RZ(0, 0.3), gates.T(2), gates.U3(1, 0.1, 0.2, 0.3)]),
+        (["H", "X", "Y", "Z", "S", "Sdag", "CZ"], [gates.RY(1, 0.77), gates.PauliRotation([0, 2], [1, 3], 0.5)]),
+        (["RX", "RY", "RZ"], [gates.CNOT(0, 1), gates.SWAP(1, 2), gates.TOFFOLI(0, 1, 2)]),
+        (["RX", "RY", "RZ", "H"], [gates.CZ(2, 0)]),
+        (["CNOT"], [gates.X(1), gates.Z(2)]),
+        (["X", "SqrtX", "CNOT"], [gates.RZ(2, 0.2)]),
+    ]
+    out = []
+    for tl, offenders in deficient:
+        for through, cb in ((um([0, 1, 2]), 0), (um([2, 0, 3]), 0), (um([0, 1, 2, 3]), 0), (gates.Measurement([1], [0]), 1), (None, 0)):
+            off = rng.choice(offenders)
+            ok = gates.CNOT(0, 1) if "CNOT" in tl else gates.CZ(0, 1) if "CZ" in tl else gates.RZ(0, 0.25)
+            if through is None:
+                through = ok
+            for shape in ("after", "before", "both", "far-after", "only-through", "two-through"):
+                gs = {"after": [ok, through, off], "before": [off, ok, through], "both": [off, through, off],
+                      "far-after": [through, ok, ok, ok, off], "only-through": [ok, through, ok],
+                      "two-through": [through, ok, through, off]}[shape]
+                out.append((tl, shape, QuantumCircuit(4, cb, gates=gs)))
+    return out
+
+
 def _violations(out, n, target, rot_only=False):
     """which clauses of the property the returned circuit falsifies: {clause: description}"""
     og = list(out.gates)
@@ -399,7 +434,7 @@ def validate(ctx: Ctx, budget_s: float):
 
     import quri_parts.circuit.transpile as T
     from oracle import dense
-    from quri_parts.circuit import gates
+    from quri_parts.circuit import QuantumCircuit, gates
 
     rng = ctx.rng
     t0 = time.time()
@@ -425,6 +460,13 @@ def validate(ctx: Ctx, budget_s: float):
         for tl in (["H", "RZ", "CNOT"], ["H", "RZ", "CNOT", "Measurement"], ["RX", "RY", "RZ", "CZ", "Measurement"], ["Measurement"]):
             det.append(((lambda tl=tl: T.GateSetConversionTranspiler(tl)), set(tl), f"GateSetConversion({tl};list;3)", False, mc))
         det.append(((lambda: T.RotationConversionTranspiler(["RZ"], ["H"])), {"RZ"}, "RotationConversion(['RZ'],['H'];list)", True, mc))
+    # … and position-dependent validation: an inexpressible gate before / after every kind of pass-through gate
+    for tl, shape, pc in position_probes(rng):
+        extra = ["UnitaryMatrix"] if rng.random() < 0.15 else []
+        det.append(((lambda tl=tl + extra: T.GateSetConversionTranspiler(tl)), set(tl + extra), f"GateSetConversion({tl + extra};list;3;{shape})", False, pc))
+    for name in PROMISED:  # the presets on the same circuits (the big UnitaryMatrix may be returned, nothing else foreign)
+        for tl, shape, pc in rng.sample(position_probes(rng), 12):
+            det.append(((lambda nm=name: getattr(T, nm)()), PROMISED[name], f"{name}(;{shape})", False, pc))
     while det or time.time() - t0 < budget_s:
         fixed = det.pop() if det else None
         n = rng.choice([1, 2, 3, 3, 4, 4, 5, 6])
@@ -432,9 +474,13 @@ def validate(ctx: Ctx, budget_s: float):
         if rng.random() < 0.3 and n >= 2:  # the last qubit is used (an off-by-one in a register bound would show)
             circ.add_gate(rng.choice([gates.H(n - 1), gates.CZ(n - 1, 0), gates.SWAP(0, n - 1), gates.PauliRotation([n - 1, 0], [2, 1], 0.3),
                                       gates.U3(n - 1, 0.1, 0.2, 0.3), gates.RY(n - 1, 1.0)]))
-        if rng.random() < 0.15 and n >= 3:
-            q = rng.sample(range(n), 3)
-            circ.add_gate(gates.UnitaryMatrix(q, dense.random_unitary(rng, 8).tolist()))
+        if rng.random() < 0.2 and n >= 3:  # the documented exception, at ANY position (first / middle / last), possibly twice
+            gl = list(circ.gates)
+            for _ in range(rng.choice([1, 1, 2])):
+                m = 4 if (n >= 4 and rng.random() < 0.2) else 3
+                big = gates.UnitaryMatrix(rng.sample(range(n), m), dense.random_unitary(rng, 2 ** m).tolist())
+                gl.insert(rng.choice([0, len(gl), rng.randint(0, len(gl))]), big)
+            circ = QuantumCircuit(n, gates=gl)
         measured = rng.random() < 0.15
         if measured:  # classical register + the non-unitary gate kind
             circ = with_measurements(rng, circ)
@@ -469,10 +515,20 @@ def validate(ctx: Ctx, budget_s: float):
             target, label, rot_only = set(rots), f"RotationConversion({rots},{fav};{fr})", True
         else:
             s = [k for k in vocab if rng.random() < 0.3]
-            if rng.random() < 0.8 and not ({"CNOT", "CZ"} & set(s)):
-                s.append(rng.choice(["CNOT", "CZ"]))
-            if rng.random() < 0.8 and not ({"RX", "RY", "RZ"} & set(s)):
-                s.append(rng.choice(["RX", "RY", "RZ"]))
+            if rng.random() < 0.25:  # deficient lists: cannot express some gate, so the final validation has to fire
+                s = rng.choice([
+                    [rng.choice(["RX", "RY", "RZ"]), rng.choice(["CNOT", "CZ"])],
+                    [k for k in C1Q if rng.random() < 0.5] + [rng.choice(["CNOT", "CZ"])],
+                    [k for k in ("RX", "RY", "RZ", "H", "S", "T") if rng.random() < 0.6],
+                    [rng.choice(vocab)], [], ["X", "SqrtX", "CNOT"], ["H", "T", "Tdag", "CNOT"],
+                ])
+            else:
+                if rng.random() < 0.8 and not ({"CNOT", "CZ"} & set(s)):
+                    s.append(rng.choice(["CNOT", "CZ"]))
+                if rng.random() < 0.8 and not ({"RX", "RY", "RZ"} & set(s)):
+                    s.append(rng.choice(["RX", "RY", "RZ"]))
+            if rng.random() < 0.05:
+                s.append("UnitaryMatrix")
             if measured and rng.random() < 0.5:
                 s.append("Measurement")
             eps = rng.choice([1e-9, 1e-9, 1e-6, 1e-12])
